@@ -1053,9 +1053,9 @@ package goatlang
 //@   modifies allbut(H$VM,A$instruction,H$funcT,H$lookup)
 //@   ensures stackKept()
 //@ func (Value).Slice
-//@   property C07
-//@   trusted
+//@   property C07 C11
 //@   allocates sliceT
+//@   ensures#nilslice @C11 isnil(v.value) ==> i == 0 && j == 0
 //@ func (Value).Append
 //@   property C07
 //@   trusted
